@@ -19,7 +19,7 @@ class P(Prop):
             "function of every output and blackbox input are compared; without constants the gate-primitive form must give "
             "an identical graph; non-trivial = >=2 gates")
     assumptions = ["set-iteration order inside the patched run is the model's ordBy(seed) family"]
-    budget = {"quick": (120, 60), "thorough": (2500, 1200)}
+    budget = {"quick": (120, 120), "thorough": (2500, 1200)}
 
     def gen_case(self):
         rng = self.rng
@@ -57,7 +57,7 @@ class P(Prop):
         if rng.random() < 0.25:
             # escaped identifiers
             victims = [n for n in c.graph.nodes if "." not in n]
-            mp = {n: "\\" + n + rng.choice([".x", "[0]", "$", "", ""]) for n in rng.sample(victims, min(2, len(victims)))}
+            mp = {n: "\\" + n + rng.choice([".x", "[0]", "$", "", "", "(0)", ",en", ";", ")", "(", "[1:0]"]) for n in rng.sample(victims, min(2, len(victims)))}
             c = cg.tx.relabel(c, mp)
             # `\\en ` next to `en`: two different nodes for the library
             twins = [v for k, v in mp.items() if v == "\\" + k and c.type(v) == "input"]
